@@ -198,6 +198,8 @@ def diff_runs(a, b, ids, parts, opts):
                     "event": a.ev_by_id.get(j) or b.ev_by_id.get(j)}
         for p in parts:
             va, vb = VIEWS[p](oa, opts), VIEWS[p](ob, opts)
+            if p == "frames" and j in opts.get("prefix_frames", ()) and (va[:len(vb)] == vb or vb[:len(va)] == va):
+                continue
             if va != vb:
                 ev = {k: v for k, v in a.ev_by_id[j].items() if k != "oracle"}
                 return {"event_id": j, "part": p, "event": ev, "difference": describe_diff(p, va, vb)}
@@ -871,10 +873,38 @@ def list_answers_ok(r, cfg):
     return n, None
 
 
+def chan_indexed_crashes(cfg, events, seed, stats):
+    """crash(n, e) -> crash(n_chan = j, e): j = the number of CHANNEL commits the event had made when the process
+    died in the run under the history's own configuration (ViewFactsX.v: the k-th commit names different instants
+    with and without a usage database; dying after the same number of channel commits is the same instant for
+    the channel database).  A crash that fell after the event's last commit stays `e; restart`."""
+    if not any(ev["k"] == "crash" for ev in events):
+        return events, set()
+    r0 = run(cfg, events, seed)
+    out, crash_ids = [], set()
+    for ev in events:
+        if ev["k"] != "crash":
+            out.append(ev)
+            continue
+        o = r0.by_id.get(ev["_id"])
+        commits = [e[0] for e in (o["log"] if o else []) if e[0] in ("C", "U")]
+        if o is None or ev.get("after_stmt") or len(commits) < ev["n"]:
+            out.append(dict(ev["e"], _id=ev["_id"], **({"oracle": ev["oracle"]} if "oracle" in ev else {})))
+            out.append({"k": "restart", "_id": "%s-restart" % ev["_id"]})
+            continue
+        e2 = {"k": "crash", "n": ev["n"], "n_chan": commits.count("C"), "e": ev["e"], "_id": ev["_id"]}
+        if "oracle" in ev:
+            e2["oracle"] = ev["oracle"]
+        out.append(e2)
+        crash_ids.add(ev["_id"])
+        stats["crash-by-channel-commit"] += 1
+    return out, crash_ids
+
+
 def check_C18(h, rng, tier):
     seed = h["seed"]
     stats = Counter()
-    base = uncrash(tag(h["events"]))
+    base, crash_ids = chan_indexed_crashes(h["cfg"], tag(h["events"]), seed, stats)
     cfgs = []
     for allow in (True, False):
         for usage in (True, False):
@@ -886,7 +916,7 @@ def check_C18(h, rng, tier):
     ref = run(ref_cfg, base, seed)
     ids = [ev["_id"] for ev in base]
     parts = ["frames", "exc", "chan", "alloc"]
-    opts = {"mask_nameplates": True}
+    opts = {"mask_nameplates": True, "prefix_frames": sorted(crash_ids, key=str)}     # (a crash event: one run may have sent more before dying)
     nontrivial = 0
     n, bad = list_answers_ok(ref, ref_cfg)
     stats["list-answers"] += n
@@ -1173,7 +1203,7 @@ CHECKS = {
     # pid: (function, [(profile, histories in the quick tier)])
     "C14": (check_C14, [("session", 160), ("crowd", 48), ("kf", 48), ("core", 64), ("pipeline", 32)]),
     "C11": (check_C11, [("restart", 240), ("sweep", 80), ("core", 80), ("reuse-after-prune", 32), ("stale-ns", 16)]),
-    "C18": (check_C18, [("config", 120), ("session", 60), ("two-app", 60)]),
+    "C18": (check_C18, [("config", 120), ("session", 60), ("two-app", 60), ("crash", 48)]),
     "C10": (check_C10, [("crash", 160), ("session", 80), ("usage", 80), ("core", 80)]),
     "C17": (check_C17, [("discipline", 240), ("malformed", 160), ("core", 80)]),
     "C05": (check_C05, [("crowd", 240), ("kf", 60)]),
